@@ -9,4 +9,4 @@ if [ "$1" = "replay" ]; then
   exec "$VERIF_DIR/build/vcheck" replay "$2"
 fi
 export VERIF_TIER="${2:-quick}"
-exec "$VERIF_DIR/build/vcheck" run "$1" "${2:-quick}"
+exec "$(vbin "$1")" run "$1" "${2:-quick}"
